@@ -42,9 +42,32 @@ def _renumber(x, off_l, off_b):
     return x
 
 
-def _inline_one(caller, bi, callee):
+_TRAIT_CALL = re.compile(r"^<(\w+) as (.+)>::(\w+)$")
+
+
+def _respecialise(term, subst, by_path):
+    """A call `<S as Trait>::m` in the body of a generic helper, with S one of the helper's type parameters: in the copy expanded at a call site that fixes S to a
+    type of this crate it is the call of that type's impl (the driver resolved it in the helper's own, still generic, context)."""
+    if term.get("k") != "call" or term.get("res") or not subst:
+        return
+    m = _TRAIT_CALL.match(term.get("callee_args") or "")
+    if not m or m.group(1) not in subst:
+        return
+    cand = "<%s as %s>::%s" % (subst[m.group(1)], m.group(2), m.group(3))
+    if cand in by_path:
+        term["res"] = cand
+        term["res_args"] = cand
+        term["res_kind"] = "item"
+        term["callee_args"] = cand
+        term["inl_respecialised"] = True
+
+
+def _inline_one(caller, bi, callee, by_path=None):
     blocks = caller["blocks"]
     t = blocks[bi]["term"]
+    subst = {}
+    if by_path is not None and callee.get("generics") and len(callee["generics"]) == len(t.get("targs") or []):
+        subst = {g: a for g, a in zip(callee["generics"], t["targs"]) if g != a}
     off_l = len(caller["locals"])
     off_b = len(blocks)
     for lc in callee["locals"]:
@@ -56,6 +79,8 @@ def _inline_one(caller, bi, callee):
     blocks[bi]["term"] = {"k": "goto", "target": off_b, "sp": sp, "inl": callee["path"]}
     for cb in callee["blocks"]:
         nb = _renumber(cb, off_l, off_b)
+        if subst:
+            _respecialise(nb["term"], subst, by_path)
         if nb["term"]["k"] == "return":
             nb["stmts"].append({"k": "assign", "pl": copy.deepcopy(dest), "rv": {"k": "use", "ops": [{"k": "move", "pl": {"l": off_l, "p": []}}]}, "sp": sp, "inl": "ret"})
             nb["term"] = {"k": "goto", "target": target, "sp": sp} if target is not None else {"k": "unreachable", "sp": sp}
@@ -743,7 +768,7 @@ def inline_new_helpers(raw, baseline=None, keep=None):
             if not sites or len(b["blocks"]) > MAX_BLOCKS:
                 break
             for bi, tgt in sites:
-                _inline_one(b, bi, pristine[tgt])
+                _inline_one(b, bi, pristine[tgt], by_path)
                 done.append((b["path"], tgt))
     # closures defined in a body and called there directly (`let step = |x| ..; step(v)`), typically after a helper taking `impl Fn` was inlined
     closures = None
